@@ -22,10 +22,22 @@ for path, text in sorted(load_sourceset().items()):
                 walk(st, prefix + st.name + ".")
             elif isinstance(st, ast.ClassDef):
                 names.append(prefix + st.name)
+                # class-level attributes (constants, tables, regexes) are part of the pinned inventory too
+                for a in st.body:
+                    tg = a.targets if isinstance(a, ast.Assign) else ([a.target] if isinstance(a, ast.AnnAssign) else [])
+                    for t in tg:
+                        if isinstance(t, ast.Name):
+                            names.append(prefix + st.name + "." + t.id)
                 walk(st, prefix + st.name + ".")
             elif isinstance(st, (ast.If, ast.Try, ast.With, ast.For, ast.While, ast.ExceptHandler)):
                 walk(st, prefix)
     walk(tree, "")
-    out[path] = sorted(names)
+    # module-level names bound by assignment
+    for a in tree.body:
+        tg = a.targets if isinstance(a, ast.Assign) else ([a.target] if isinstance(a, ast.AnnAssign) else [])
+        for t in tg:
+            if isinstance(t, ast.Name):
+                names.append("=" + t.id)
+    out[path] = sorted(set(names))
 json.dump(out, open("/verif/sa/reference/functions.json", "w"), indent=0, sort_keys=True)
 print(sum(len(v) for v in out.values()), "names in", len(out), "files")
